@@ -13,7 +13,7 @@ use psc_model::{
 	valgen::*,
 };
 
-pub const ALLOWANCE_PER_LEVEL: usize = 256 * 1024;
+pub const ALLOWANCE_PER_LEVEL: usize = 64 * 1024;
 
 pub fn targets(zoo: &[Entry]) -> Vec<&Entry> {
 	zoo.iter().filter(|e| e.probe.is_some() && e.ty.static_depth() >= 1).collect()
@@ -22,7 +22,10 @@ pub fn targets(zoo: &[Entry]) -> Vec<&Entry> {
 /// The executable form of "linear in the input bytes plus a fixed allowance per nesting level".
 pub fn bound(e: &Entry, input_len: usize) -> usize {
 	let c = e.ty.expansion().max(1);
-	8 * c * input_len + 64 * input_len + ALLOWANCE_PER_LEVEL * (e.ty.static_depth() + 1)
+	// recursive types nest as deep as the input says (at least one byte per level): every such level may
+	// hold one preallocation window, which keeps the bound linear in the input length
+	let levels = e.ty.static_depth() + 1 + if e.ty.is_recursive() { input_len } else { 0 };
+	8 * c * input_len + 64 * input_len + ALLOWANCE_PER_LEVEL * levels
 }
 
 pub fn hostile_input(ty: &Ty, g: &mut Gen) -> (Vec<u8>, bool, String) {
@@ -132,13 +135,16 @@ pub fn check_input(e: &Entry, bytes: &[u8], kind: u8, hostile: bool, label: &str
 		stats.nontrivial(&(e.name, bytes.len(), label, kind));
 	}
 	stats.max("max_ratio_observed(peak/bound)", peak as f64 / b as f64);
+	if std::env::var_os("VERIF_C09_TIMING").is_some() {
+		stats.max(&format!("ratio:{}", e.name), peak as f64 / b as f64);
+	}
 	stats.max("max_ratio_observed(max_request/bound)", at_decoded.max_request as f64 / b as f64);
 	stats.sample(|| json!({"type": e.name, "input_len": bytes.len(), "head": hex(&bytes[..bytes.len().min(24)]), "tamper": label, "input": kind_name, "peak_live": peak, "max_request": at_decoded.max_request, "bound": b, "ok": ok}));
 	if peak > b || at_decoded.max_request > b {
 		return Err(Violation::new(
 			format!("C09/unbounded-request/{}/{}", e.ty.family(), kind_name),
 			format!(
-				"type {} ({kind_name} input, {} bytes, {label}): peak live heap {} bytes, largest single request {} bytes, bound {} (= 8*{}*len + 64*len + 256KiB*{})\ninput head {}",
+				"type {} ({kind_name} input, {} bytes, {label}): peak live heap {} bytes, largest single request {} bytes, bound {} (= 8*{}*len + 64*len + 64KiB*{})\ninput head {}",
 				e.name,
 				bytes.len(),
 				peak,
@@ -191,12 +197,12 @@ pub fn run(ctx: &Ctx) -> (Level, Report) {
 nesting position is replaced by 2^32-1, 2^32-2, 2^30, 2^24, 2^16, count+1 or a random u32 (bit sequences also 2^29-1), followed by 0..64 KiB of \
 zero / random / plausible payload, over slice, unknown-length and shared-buffer inputs; plus ordinary mutated inputs. Oracle: a counting \
 global allocator (per-thread) around the decode call alone: peak live bytes and the largest single request must stay below \
-8*c_T*len + 64*len + 256 KiB*(depth_T+1), where c_T is the type's largest in-memory/encoded element size ratio; requests above 2 GiB are refused, \
+8*c_T*len + 64*len + 64 KiB*(depth_T+1), where c_T is the type's largest in-memory/encoded element size ratio; requests above 2 GiB are refused, \
 which kills the worker process (recovered and reported by the parent). Non-trivial = the claimed count promises at least twice the data supplied.",
 			assumptions: vec![
 				"allocation observed through the global allocator on a 64-bit target",
 				"zero-width encodings of sized elements (LinkedList<()>, Vec of all-skipped structs) are excluded from the bound (counted in excluded)",
-				"the allowance (256 KiB per nesting level) is 16x the crate's current 16 KiB window: the property only requires a fixed allowance",
+				"the allowance (64 KiB per nesting level) is 4x the crate's current 16 KiB window: the property only requires a fixed allowance",
 			],
 		},
 		report,
